@@ -108,8 +108,9 @@ class StorageTools:
         logger.debug("Writing %s" % path)
 
         # write to a temporary file first so that a crash never leaves a truncated file behind
-        tmp_path = path + ".tmp"
-        with open(tmp_path, 'w' if type(val) is str else 'wb') as attrFile:
+        # (a unique name, as two threads may save the same profile at the same time)
+        fd, tmp_path = tempfile.mkstemp(prefix=name + ".", suffix=".tmp", dir=storage)
+        with os.fdopen(fd, 'w' if type(val) is str else 'wb') as attrFile:
             attrFile.write(val)
         getattr(os, "replace", os.rename)(tmp_path, path)
 
